@@ -1,7 +1,7 @@
 """Per-property table of harness instances (what bin/check runs). Bounds registered here are the ones
 that ran clean on the unchanged tree."""
 
-EXTRA_OVERLAY_DIRS = ["internal/zzverifmodels"]
+EXTRA_OVERLAY_DIRS = ["internal/rng"]
 
 
 def inst(pkg, harness, params=None, **kw):
@@ -165,13 +165,22 @@ CHECKS["C09"] = dict(
           "(integer obligations on the results recovered exactly from the real table and bridge). Determinism part (relational): two function "
           "tables built from the same 1..2-byte seed and driven with the same 1..2 calls of dice/random_range/random (32-bit symbolic arguments) "
           "return equal results and errors, with an unrelated third generator used in between, independent environment answers (global rand "
-          "source, clock) per copy and a solver-chosen iteration order of the registration map.",
+          "source, clock) per copy and a solver-chosen iteration order of the registration map. Streams: the same range claims on math/rand's own "
+          "Intn/Float64 code running over a source that returns arbitrary 63-bit values (up to DRAWS draws per call; dice sides and range "
+          "widths up to 256 because the generator's modulo is symbolic-by-symbolic), so that a counterexample is a concrete stream a native "
+          "replay can feed to the real generator.",
     note="The bit-for-bit stream of math/rand for a seed is the stdlib's contract (uninterpreted function of seed, call index and bound).",
     instances=dict(
         quick=[inst("root", "VHRandomContracts", solver="z3", workers=8, must_reach=["dice", "random_range", "random"]),
-               inst("root", "VHDeterminism", {"CALLS": 1}, solver="z3", workers=8, maporder="symbolic", must_reach=["compared"])],
+               inst("root", "VHDeterminism", {"CALLS": 1}, solver="z3", workers=8, maporder="symbolic", must_reach=["compared"]),
+               inst("root", "VHRandomStreams", {"FN": 2, "DRAWS": 2}, solver="cvc5", workers=2, timeout_ms=300000, must_reach=["random"]),
+               inst("root", "VHRandomStreams", {"FN": 0, "DRAWS": 2}, solver="z3", workers=4, timeout_ms=300000, must_reach=["dice"]),
+               inst("root", "VHRandomStreams", {"FN": 1, "DRAWS": 2}, solver="z3", workers=4, timeout_ms=300000, must_reach=["random_range"])],
         thorough=[inst("root", "VHRandomContracts", solver="z3", workers=8, must_reach=["dice", "random_range", "random"]),
-                  inst("root", "VHDeterminism", {"CALLS": 2}, solver="z3", workers=16, maporder="symbolic", must_reach=["compared"])]),
+                  inst("root", "VHDeterminism", {"CALLS": 2}, solver="z3", workers=16, maporder="symbolic", must_reach=["compared"]),
+                  inst("root", "VHRandomStreams", {"FN": 2, "DRAWS": 3}, solver="cvc5", workers=2, timeout_ms=600000, must_reach=["random"]),
+                  inst("root", "VHRandomStreams", {"FN": 0, "DRAWS": 3}, solver="z3", workers=4, timeout_ms=900000, must_reach=["dice"]),
+                  inst("root", "VHRandomStreams", {"FN": 1, "DRAWS": 3}, solver="z3", workers=4, timeout_ms=900000, must_reach=["random_range"])]),
     assumptions=["seed strings of 1..3 arbitrary bytes"],
 )
 
@@ -227,29 +236,37 @@ CHECKS["C15"] = dict(
           "executed on a buffer of N symbolic bytes from a fresh parser, along every feasible path: no panic path, no exhausted instruction "
           "budget (termination within the bound), and for every result every attribute has Position >= 0, Length >= 0, Position+Length <= number "
           "of characters of Text and TextForAttribute does not panic. Two families: arbitrary ASCII bytes, and fully arbitrary bytes "
-          "(multi-byte and invalid UTF-8).",
+          "(multi-byte and invalid UTF-8); and a third one of token-level assemblies of marker fragments (replacement markers included).",
     note="Bounds: N as listed in evidence.bounds; longer strings are outside the claim. unicode.IsSpace/IsDigit/IsLetter are exact (tables "
          "compiled into SMT); regexp through the engine's matcher for the two pattern shapes ysgo uses.",
     instances=dict(
         quick=[_mk("VHMarkupTotal", N=n, ASCII=1, must_reach=["parsed", "error"]) for n in (1, 2, 3, 4, 5)] +
-              [_mk("VHMarkupTotal", N=n, ASCII=0, must_reach=["parsed"]) for n in (1, 2, 3)],
+              [_mk("VHMarkupTotal", N=n, ASCII=0, must_reach=["parsed"]) for n in (1, 2, 3)] +
+              [_mk("VHMarkupAssembly", K=3, workers=12, must_reach=["parsed", "error", "attribute"])],
         thorough=[_mk("VHMarkupTotal", N=n, ASCII=1, workers=16, must_reach=["parsed", "error"]) for n in (1, 2, 3, 4, 5, 6, 7)] +
-                 [_mk("VHMarkupTotal", N=n, ASCII=0, workers=16, must_reach=["parsed"]) for n in (1, 2, 3, 4)]),
-    assumptions=["fresh LineParser value (reuse is C14)"],
+                 [_mk("VHMarkupTotal", N=n, ASCII=0, workers=16, must_reach=["parsed"]) for n in (1, 2, 3, 4)] +
+                 [_mk("VHMarkupAssembly", K=4, workers=16, must_reach=["parsed", "error", "attribute"])]),
+    assumptions=["fresh LineParser value (reuse is C14)",
+                 "assembled lines: K fragments from a 21-element alphabet of marker pieces (brackets, slashes, =, quotes, escapes, a symbolic letter, "
+                 "digit and byte >= 0x80, e-acute, whole open/close/self-closing/close-all and replacement markers)"],
 )
 CHECKS["C14"] = dict(
     level="model_checking",
     claim="Relational: a LineParser in an arbitrary state (symbolic sourcePosition and position, arbitrary input, reader nil or mid-string - an "
           "abstraction of every history incl. failed parses) and a fresh one parse the same line of N symbolic bytes; error-ness, text and every "
-          "attribute field (Position, Length, SourcePosition, name, typed properties) are equal. Runner side: the same line shown after a "
+          "attribute field (Position, Length, SourcePosition, name, typed properties) are equal. Real histories: H lines of a 12-member family of "
+          "structured lines (markers, replacement markers in both forms, lines failing at different points of the scan) parsed first on the same "
+          "parser value, then a line of the family, compared with a fresh parser (this also covers state a change may add to the parser). Runner side: the same line shown after a "
           "different (symbolic) previous line through DialogueRunner.Next equals what a fresh parser returns.",
     note="The oracle is the fresh parser itself, so no reference parser is trusted. Bounds on N in evidence.bounds.",
     instances=dict(
         quick=[_mk("VHMarkupPure", N=n, ASCII=1, must_reach=["parsed", "error"]) for n in (2, 3, 4)] +
               [_mk("VHMarkupPure", N=5, ASCII=1, workers=12, must_reach=["parsed", "with-attributes"])] +
+              [_mk("VHMarkupHistory", H=1, workers=12, must_reach=["parsed", "error"])] +
               [inst("root", "VHRunnerMarkupPure", {"N1": 2, "N2": 3}, workers=8, must_reach=["parsed"])],
         thorough=[_mk("VHMarkupPure", N=n, ASCII=1, workers=16, must_reach=["parsed", "error"]) for n in (2, 3, 4, 5, 6)] +
                  [_mk("VHMarkupPure", N=n, ASCII=0, workers=16, must_reach=["parsed"]) for n in (2, 3, 4)] +
+                 [_mk("VHMarkupHistory", H=2, workers=16, must_reach=["parsed", "error"])] +
                  [inst("root", "VHRunnerMarkupPure", {"N1": 3, "N2": 5}, workers=16, must_reach=["parsed", "with-attributes"])]),
     assumptions=[],
 )
